@@ -150,7 +150,9 @@ func c19Gen(r *Run, rng *gen.Rng, corpus []string) *c19Inv {
 			// the target's extension in another case; the extension's text a second time further left
 			"DEPLOY.SH", "Setup.Bat", "x.Sh", "RUN.BAT", "deploy.tsh.old.tsh", "release.1.0.1", "x.tshirt.tsh", "a.sh.sh.tsh",
 			// stems that are "." and ".." (what remains when the last extension is removed)
-			"..tsh", "...tsh"})
+			"..tsh", "...tsh",
+			// names another operating system reserves
+			"aux.tsh", "con.tsh", "nul.tsh", "Com1.setup.tsh", "nul .tsh", "lpt1", "PRN.tsh"})
 		// imports are relative to the main file's directory: keep the directory, change the base name
 		nm = path.Join(path.Dir(main), path.Base(nm))
 		if rng.Chance(33) && path.Dir(main) == "." && len(gw.Closure) == 1 {
@@ -436,6 +438,18 @@ func c19Gen(r *Run, rng *gen.Rng, corpus []string) *c19Inv {
 	devices := []string{"/tmp"}
 	if rng.Chance(30) && outAbs != mount {
 		devices = append(devices, outAbs)
+	}
+	// how the command was started: by its real path, through a symbolic link in another directory,
+	// or by its bare name found on the search path (/usr/bin is on every simulated PATH). The
+	// executable's real location — where std lives — is the same in all three cases.
+	files = append(files, simrt.FileSpec{Path: "/usr/bin/tsh", Link: path.Join(exe, "tsh")}, simrt.FileSpec{Path: "/home/u/bin/tsh", Link: path.Join(exe, "tsh")})
+	switch rng.Intn(4) {
+	case 0:
+		args[0] = path.Join(exe, "tsh")
+	case 1:
+		args[0] = "/home/u/bin/tsh"
+	case 2:
+		args[0] = "/usr/bin/tsh"
 	}
 	inv.Spec = simrt.WorldSpec{Devices: devices, Files: files, Cwd: cwd, Exe: path.Join(exe, "tsh"), Args: args,
 		MapMode: rng.Pick([]string{"canonical", "reversed", "shuffle"}), MapSeed: rng.U64(), Epoch: int64(rng.Intn(1 << 30)), Budgets: &b}
